@@ -17,8 +17,10 @@ import RV.Base.Proto
                                     parser = nt|nquads|turtle|n3|trig|xml|trix|json-ld|hext; sk = skolemize=True,
                                     pre = preserve_bnode_ids=True, gen = generalized_rdf=True, ctx=K = bnode_context=<the
                                     caller's dict number K> (empty at reset), inst=K = N-Quads parser object number K
+    ctxset K nL bN        -> ok     the caller's dict K gets the entry  label L -> node N  (before it is handed to a call)
     ctx K                 -> the keys of the caller's dict K: sorted label numbers < 1000, then `+n` for n other keys
     q s p o g             -> ok     next statement of the document (g may be `-`)
+    d s p o g             -> ok     RDF Patch only: a `D` (delete) row, applied after the document's `A` rows (the `q` lines)
     open / close          -> ok     `{` / `}` of an N3 formula: the statements in between are the formula's (their g is its node)
     end                   -> ok     parse the document into the target (Graph.parse)
     obs                   -> the target's quads:  s,p,o,g s,p,o,g …   (order irrelevant; harness canonicalises)
@@ -38,19 +40,20 @@ structure St where
   instK : Option Nat                     -- which N-Quads parser object
   ctxs : List (Nat × LMap)               -- the caller's dicts
   insts : List (Nat × LMap)              -- `_bnode_ids` of the N-Quads parser objects
+  dels : List DQuad                      -- `D` rows of the open RDF Patch, reversed
 
 def stmtsOf : List Ev → List DQuad
   | [] => []
   | .stmt q :: es => q :: stmtsOf es
   | _ :: es => stmtsOf es
 
-def St.empty : St := ⟨⟨[], 1000⟩, .remap, .iri 0, [], [], none, CallOpts.default, none, none, [], []⟩
+def St.empty : St := ⟨⟨[], 1000⟩, .remap, .iri 0, [], [], none, CallOpts.default, none, none, [], [], []⟩
 
 def parser? (w : String) : Option Parser :=
   if w = "nt" then some .nt else if w = "nquads" then some .nquads else if w = "turtle" then some .turtle
   else if w = "n3" then some .n3 else if w = "trig" then some .trig else if w = "xml" then some .xml
   else if w = "trix" then some .trix else if w = "json-ld" then some .jsonld else if w = "hext" then some .hext
-  else none
+  else if w = "patch" then some .patch else none
 
 def klookup : List (Nat × LMap) → Nat → Option LMap
   | [], _ => none
@@ -149,7 +152,7 @@ def step (s : St) : List String → St × String
     | some a, some b, some c, some d => ({ s with ds := { s.ds with quads := sinsert s.ds.quads (a, b, c, d) } }, "ok")
     | _, _, _, _ => (s, "bad-op")
   | "doc" :: p :: into :: ws =>
-    let s0 := { s with cur := [], par := none, opts := CallOpts.default, ctxK := none, instK := none }
+    let s0 := { s with cur := [], dels := [], par := none, opts := CallOpts.default, ctxK := none, instK := none }
     match (if p = "r" then some Policy.remap else if p = "v" then some Policy.verbatim else none), parser? p, tterm? into with
     | some p, _, some t => if ws.isEmpty then ({ s0 with pol := p, into := t }, "ok") else (s, "bad-op")
     | none, some pr, some t =>
@@ -165,6 +168,15 @@ def step (s : St) : List String → St × String
         | some g => ({ s with cur := .stmt (a, b, c, some g) :: s.cur }, "ok")
         | none => (s, "bad-op")
     | _, _, _ => (s, "bad-op")
+  | ["d", a, b, c, d] =>
+    -- a `D` row of an RDF Patch (written after the `A` rows)
+    match dterm? s a, dterm? s b, dterm? s c with
+    | some a, some b, some c =>
+      if d = "-" then ({ s with dels := (a, b, c, none) :: s.dels }, "ok")
+      else match dterm? s d with
+        | some g => ({ s with dels := (a, b, c, some g) :: s.dels }, "ok")
+        | none => (s, "bad-op")
+    | _, _, _ => (s, "bad-op")
   | ["open"] => ({ s with cur := .opn :: s.cur }, "ok")
   | ["close"] => ({ s with cur := .cls :: s.cur }, "ok")
   | ["end"] =>
@@ -178,6 +190,10 @@ def step (s : St) : List String → St × String
       -- the N3-family parser as coded: a stack of label dicts (`Parsers.n3Run`)
       let r := n3Run s.into ⟨s.ds.fresh, [], [], []⟩ evs
       ({ s with ds := parseN3 s.ds s.into evs, cur := [], maps := s.maps ++ [(.remap, r.1.cur)] }, "ok")
+    | some .patch =>
+      -- RDF Patch: `A` rows then `D` rows, always into the dataset's default graph (i0), labels verbatim
+      let rows := doc.map (fun q => (POp.add, q)) ++ s.dels.reverse.map (fun q => (POp.del, q))
+      ({ s with ds := parsePatch s.ds (.iri 0) rows, cur := [], dels := [], maps := s.maps ++ [(.verbatim, [])] }, "ok")
     | some pr =>
       -- the dicts this call sees: the caller's `bnode_context` (if given) and the parser object's `_bnode_ids`
       let arg := s.ctxK.map (fun k => (klookup s.ctxs k).getD [])
@@ -193,6 +209,15 @@ def step (s : St) : List String → St × String
         | some k => kset s.insts k fin.2
         | none => s.insts
       ({ s with ds := r.1, cur := [], maps := s.maps ++ [(s.pol, r.2)], ctxs := ctxs, insts := insts }, "ok")
+  | ["ctxset", k, l, b] =>
+    -- the caller put an entry into its dict before handing it over:  ctx[K][label] = node
+    match k.toNat?, numAfter 'n' l, numAfter 'b' b with
+    | some k, some l, some b =>
+      let m := (klookup s.ctxs k).getD []
+      (match alookup m (.named l) with
+        | some _ => (s, "ok")
+        | none => ({ s with ctxs := kset s.ctxs k ((.named l, b) :: m) }, "ok"))
+    | _, _, _ => (s, "bad-op")
   | ["ctx", k] =>
     match k.toNat? with
     | some k => (s, showCtx ((klookup s.ctxs k).getD []))
